@@ -112,6 +112,7 @@ package jsonpatch
 //@   ensures[C08] attrs: !isTestFailed(err) && !isCopyLimit(err) && !isMissing(err) && !isInvalidIndex(err)
 //@   ensures[C02] keeps-no-null-kids: old(noNullKids()) && (val == nil || kind(val(*val.raw)) != KNull) ==> noNullKids()
 //@   ensures[C14] keys-arrays: forall x *partialDoc {x.keys} :: x.keys.arr == old(x.keys.arr) || x.keys == nil || fresh(x.keys)
+//@   ensures[C07] members-kept: forall m map[string]*lazyNode, k string {domsel(m, k)} :: old(k in m) ==> k in m
 //@   loop 1
 //@   invariant bounds: -1 <= rangeindex && rangeindex < len(d.keys)
 //@   invariant not-found-so-far: forall j int :: 0 <= j && j <= rangeindex ==> d.keys[j] != key
@@ -129,6 +130,7 @@ package jsonpatch
 //@   ensures[C08] attrs: !isTestFailed(err) && !isCopyLimit(err) && !isMissing(err) && !isInvalidIndex(err)
 //@   ensures[C02] keeps-no-null-kids: old(noNullKids()) && (val == nil || kind(val(*val.raw)) != KNull) ==> noNullKids()
 //@   ensures[C14] keys-arrays: forall x *partialDoc {x.keys} :: x.keys.arr == old(x.keys.arr) || x.keys == nil || fresh(x.keys)
+//@   ensures[C07] members-kept: forall m map[string]*lazyNode, k string {domsel(m, k)} :: old(k in m) ==> k in m
 
 //@ func (*partialDoc).remove
 //@   requires recv: d != nil && options != nil
@@ -234,6 +236,7 @@ package jsonpatch
 //@   ensures[C02] keeps-no-null-kids: old(noNullKids()) ==> noNullKids()
 //@   ensures[C01,C06] bytes-kept: n.raw != nil ==> bytes(*n.raw) == old(bytes(*n.raw))
 //@   ensures[C14] keys-arrays: forall x *partialDoc {x.keys} :: x.keys.arr == old(x.keys.arr) || x.keys == nil || fresh(x.keys)
+//@   ensures[C07] members-kept: forall m map[string]*lazyNode, k string {domsel(m, k)} :: old(k in m) ==> k in m
 
 //@ func (*lazyNode).intoAry
 //@   requires node: nodeOK(n)
@@ -618,24 +621,32 @@ package jsonpatch
 //@   invariant tree: noNullKids()
 
 //@ func merge
+//@   callees[C02,C07] intoDoc, pruneNulls, mergeDocs
+//@   callsite[C02,C07] pruneNulls#1 prunes-only-a-patch-that-replaces-a-non-object: err != nil
 //@   requires nodes: cur != nil && patch != nil && childOK(cur) && childOK(patch) && options != nil
 //@   requires non-null: kind(val(*patch.raw)) != KNull && kind(val(*cur.raw)) != KNull
 //@   requires tree: noNullKids()
 //@   modifies region(lazyNode.which), region(lazyNode.doc), region(lazyNode.ary), region(partialDoc.obj), region(partialDoc.keys), region(partialDoc.opts), region(partialArray.nodes), region(elem string), region(map map[string]*lazyNode)
 //@   ensures[C02,C07] result: result == cur || result == patch
-//@   ensures[C02,C05] obj-ptrs: forall d *partialDoc {d.obj} :: old(allocated(d) && d.obj != nil) ==> d.obj == old(d.obj)
-//@   ensures[C02] tree: noNullKids()
-//@   ensures[C02,C04] children-stable: forall c *lazyNode {c.which} :: old(childOK(c)) ==> childOK(c)
-//@   ensures[C02,C04] result-ok: nodeOK(result) && (result.which == eAry ==> result.ary != nil) && (result.raw != nil ==> kind(val(*result.raw)) != KNull || result.which == eAry)
+//@   ensures[C02,C05,C07] obj-ptrs: forall d *partialDoc {d.obj} :: old(allocated(d) && d.obj != nil) ==> d.obj == old(d.obj)
+//@   ensures[C02,C07] tree: noNullKids()
+//@   ensures[C02,C04,C07] children-stable: forall c *lazyNode {c.which} :: old(childOK(c)) ==> childOK(c)
+//@   ensures[C02,C04,C07] result-ok: nodeOK(result) && (result.which == eAry ==> result.ary != nil) && (result.raw != nil ==> kind(val(*result.raw)) != KNull || result.which == eAry)
 
 //@ func mergeDocs
+//@   callees[C02,C07] remove, pruneNulls, set, merge
+//@   callsite[C02,C07] pruneNulls#1 new-member-pruned-only-when-applying: !mergeMerge
+//@   callsite[C02,C07] remove#1 null-deletes-only-when-applying: !mergeMerge && arg_key == k
+//@   callsite[C02,C07] set#1 new-member-stored: arg_key == k && arg_val == v
+//@   callsite[C02,C07] set#2 merged-member-stored: arg_key == k
+//@   callsite[C02,C07] merge#1 merges-current-with-patch-member: arg_cur == cur && arg_patch == v && (arg_mergeMerge <==> mergeMerge)
 //@   requires docs: doc != nil && patch != nil && allocated(doc) && allocated(patch) && options != nil && doc.obj != nil
 //@   requires tree: noNullKids()
 //@   modifies region(lazyNode.which), region(lazyNode.doc), region(lazyNode.ary), region(partialDoc.obj), region(partialDoc.keys), region(partialDoc.opts), region(partialArray.nodes), region(elem string), region(map map[string]*lazyNode)
-//@   ensures[C02] tree: noNullKids()
-//@   ensures[C02,C04] children-stable: forall c *lazyNode {c.which} :: old(childOK(c)) ==> childOK(c)
-//@   ensures[C02] same-map: doc.obj == old(doc.obj)
-//@   ensures[C02,C05] obj-ptrs: forall d *partialDoc {d.obj} :: old(allocated(d) && d.obj != nil) ==> d.obj == old(d.obj)
+//@   ensures[C02,C07] tree: noNullKids()
+//@   ensures[C02,C04,C07] children-stable: forall c *lazyNode {c.which} :: old(childOK(c)) ==> childOK(c)
+//@   ensures[C02,C07] same-map: doc.obj == old(doc.obj)
+//@   ensures[C02,C05,C07] obj-ptrs: forall d *partialDoc {d.obj} :: old(allocated(d) && d.obj != nil) ==> d.obj == old(d.obj)
 //@   loop 1
 //@   invariant tree: noNullKids()
 //@   invariant children-stable: forall c *lazyNode {c.which} :: old(childOK(c)) ==> childOK(c)
